@@ -90,19 +90,26 @@ def optUnify (fo : FloatOps) (f : Nat) (a b : Term) (σ : Subst) : Res (Option S
   | .panic => .panic
   | .oof => .oof
 
+def groundTop (f : Nat) (σ : Subst) (t : Term) : Res Term :=
+  match t with
+  | .var i n => (walk f σ (.var i n)).bind fun r => .ok (match r with | some g => g | none => .var i n)
+  | t => .ok t
+
+/-- what one input of `append` contributes: a variable is replaced by its ground term; a list gives
+    its terms (`get_terms`, continuing through a bound tail variable), an unbound variable nothing,
+    anything else itself. -/
+def contribution (f : Nat) (σ : Subst) (t : Term) : Res (List Term) :=
+  (groundTop f σ t).bind fun g =>
+    match g with
+    | .cons a b c d => getTerms f σ (.cons a b c d)
+    | .var _ _ => .ok []
+    | x => .ok [x]
+
 /-- the `for i in 0..(length - 1)` loop of `next_solution_append`. -/
 def appendCollect (f : Nat) (σ : Subst) : List Term → Res (List Term)
   | [] => .ok []
   | t :: ts =>
-    let grounded : Res Term :=
-      match t with
-      | .var i n => (walk f σ (.var i n)).bind fun r => .ok (match r with | some g => g | none => .var i n)
-      | t => .ok t
-    grounded.bind fun g =>
-      (match g with
-        | .cons a b c d => getTerms f σ (.cons a b c d)
-        | .var _ _ => .ok []
-        | x => .ok [x]).bind fun here =>
+    (contribution f σ t).bind fun here =>
       (appendCollect f σ ts).bind fun rest => .ok (here ++ rest)
 
 def bipAppend (fo : FloatOps) (f : Nat) (args : Option (List Term)) (σ : Subst) : Res (Option Subst) :=
@@ -149,11 +156,6 @@ def atomsMatch (functor : Term) (pat : String) : Res Bool :=
     | some c =>
       if c = '*' then .ok (decide (pat.toList.dropLast.isPrefixOf fs.toList)) else .ok (fs == pat)
   | _ => .ok false
-
-def groundTop (f : Nat) (σ : Subst) (t : Term) : Res Term :=
-  match t with
-  | .var i n => (walk f σ (.var i n)).bind fun r => .ok (match r with | some g => g | none => .var i n)
-  | t => .ok t
 
 def bipFunctor (fo : FloatOps) (f : Nat) (args : Option (List Term)) (σ : Subst) : Res (Option Subst) :=
   match args with
